@@ -97,6 +97,7 @@ type Plan struct {
 	Consumer []ConStep     `json:"consumer,omitempty"`
 	Closers  [][]CloseStep `json:"closers,omitempty"`
 	TailUs   int           `json:"tail_us,omitempty"`
+	DrainUs  int           `json:"drain_us,omitempty"` // before the cleanup Close: read Inbound until it stays silent this long
 	Ref      *RefGw        `json:"ref,omitempty"` // C05: reference gateway + lossy network for tunnelling traffic
 	Group    bool          `json:"group,omitempty"`
 }
@@ -715,6 +716,18 @@ func (s *Sim) Run() *Result {
 	}
 	lanes.Wait()
 	time.Sleep(us(p.TailUs))
+	if p.DrainUs > 0 && drainDone == nil && !res.InboundClosed {
+		for {
+			got, closed := s.readOne(us(p.DrainUs))
+			if closed {
+				res.InboundClosed = true
+			}
+			if !got {
+				break
+			}
+		}
+		s.Tr.add(Ev{K: "note", Note: "application drained Inbound"})
+	}
 	// cleanup: close the tunnel (idempotent), drain what the application has not read, stop timers
 	s.Tr.add(Ev{K: "note", Note: "cleanup"})
 	closeDone := make(chan struct{})
